@@ -1,7 +1,10 @@
 // Scenario generator and runner: the real bluetoe::link_layer::link_layer<> on top of sim::radio, against sim::central,
-// watched by llconn::monitor.  One translation unit per link layer option set includes this file after defining
-// LLCONN_OPTIONS (the options), `struct llconn_traits` (name, local sleep clock accuracy, listen conditions per selectable
-// configuration) and calls llconn::harness_main< LL, llconn_traits >().
+// watched by llconn::monitor.  One translation unit per link layer option set (conn_harness_<name>.cpp) includes this file,
+// defines the link_layer<> type and a `traits` struct (name, local sleep clock accuracy, listen conditions per selectable
+// latency configuration, how to select one) and calls llconn::harness_main< LL, traits >().
+//
+//   --mode=c20|c21|c22|c23  scenario family      --seed=N --first=N --ops=N  scenarios first..first+ops-1 (each with its own
+//   random stream, so --skip=<n,n> and --first/--ops=1 reproduce a single scenario)   --trace  echo the radio log to stderr
 #ifndef VERIF_LLCONN_CONN_HARNESS_HPP
 #define VERIF_LLCONN_CONN_HARNESS_HPP
 
@@ -401,6 +404,12 @@ struct generator {
             if (p.win_offset > p.interval) p.win_offset = p.interval;
             if (p.win_delta_us > p.win_size * 1250u) p.win_delta_us = p.win_size * 1250u;
             if (p.interval == s.params.interval) p.interval = p.interval == 6 ? 9 : p.interval - 1;
+            // the interval is final now: keep the carried parameters valid
+            if (p.win_size > p.interval - 1) p.win_size = p.interval - 1;
+            if (p.win_size > 8) p.win_size = 8;
+            if (p.win_offset > p.interval) p.win_offset = p.interval;
+            if (p.win_delta_us > p.win_size * 1250u) p.win_delta_us = p.win_size * 1250u;
+            while (min_timeout_for(p.interval, p.latency) > 3200) p.latency /= 2;
         } else if (p.kind == sim::procedure::chan_map) {
             do { p.map = random_map(r, 2); } while ((p.map & 0x1fffffffffull) == (s.params.map & 0x1fffffffffull));
         } else {
@@ -438,7 +447,8 @@ struct generator {
         s.traffic.max_len = 20;
         const long horizon = delta > 0 && delta < 600 ? delta : 0;
         s.run_events = at + losses * (s.params.latency + 1) + horizon + (s.params.latency + 1) * 8 + 14;
-        if (wrap) s.run_events = at + losses * 401 + horizon + (s.traffic.mode == sim::traffic_policy::none ? 401 * 8 : 120);
+        // (the indication waits for the first attended event, up to latency + 1 events after it was queued)
+        if (wrap) s.run_events = at + 401 + losses * 401 + horizon + (s.traffic.mode == sim::traffic_policy::none ? 401 * 8 : 401 + 120);
         if (wrap && delta >= 32766) s.run_events = at + 10 * 401;
         return s;
     }
